@@ -36,7 +36,7 @@ def _common(ts, g, T, time_default=True):
 def check_ic_endogenous_reduced(g: List[float], ic: float, T: int) -> bool:
     """
     pre: 0 <= T <= 2
-    pre: len(g) <= 4
+    pre: len(g) <= 3
     pre: all(-100 <= v <= 100 for v in g) and -100 <= ic <= 100
     post: _
     """
@@ -54,7 +54,7 @@ def check_ic_endogenous_reduced(g: List[float], ic: float, T: int) -> bool:
 def check_ic_lagged_reduced(g: List[float], ic: float, T: int) -> bool:
     """
     pre: 0 <= T <= 2
-    pre: len(g) <= 4
+    pre: len(g) <= 3
     pre: all(-100 <= v <= 100 for v in g) and -100 <= ic <= 100
     post: _
     """
@@ -71,7 +71,7 @@ def check_ic_lagged_reduced(g: List[float], ic: float, T: int) -> bool:
 def check_ic_decorative_reduced(g: List[float], ic: float, T: int) -> bool:
     """
     pre: 0 <= T <= 2
-    pre: len(g) <= 4
+    pre: len(g) <= 3
     pre: all(-100 <= v <= 100 for v in g) and -100 <= ic <= 100
     post: _
     """
@@ -116,7 +116,7 @@ def check_tuple_exogenous(a: float, b: float, c: float, T: int) -> bool:
 def check_user_time_reduced(g: List[float], T: int) -> bool:
     """
     pre: 0 <= T <= 2
-    pre: len(g) <= 4
+    pre: len(g) <= 3
     pre: all(-100 <= v <= 100 for v in g)
     post: _
     """
@@ -133,7 +133,7 @@ def check_user_time_reduced(g: List[float], T: int) -> bool:
 
 def check_maxtime_line(g: List[float], override: bool) -> bool:
     """
-    pre: len(g) <= 4
+    pre: len(g) <= 3
     pre: all(-100 <= v <= 100 for v in g)
     post: _
     """
@@ -170,8 +170,8 @@ def check_bad_values_rejected(which: int, T: int) -> bool:
 def reach_solve(g: List[float], ic: float, T: int) -> bool:
     """
     pre: 0 <= T <= 2
-    pre: len(g) <= 4
-    post: not (_ and T == 2 and len(g) == 4)
+    pre: len(g) <= 3
+    post: not (_ and T == 2 and len(g) == 3)
     """
     try:
         _solve(B_ENDO, g, ic, T, True)
